@@ -16,8 +16,8 @@
    (Picard-Lindeloef uniqueness), for the continuous-time models.  The discrete-time pair is an exact recurrence and
    is proved for every number of steps.  The (s,i) effective degree model is the hand-written Model/Rhs2D.v definition
    (C07x_ebcm_to_effective_degree) and the definition generated from the source (C07x_ebcm_to_effective_degree_generated).
-   Not proved: that SIR_effective_degree_from_graph starts at Phi_ed(1,0) (checked numerically on every run). *)
-From EoNV Require Import Prelude Graph Vec VecP Aux AuxP IC Wrappers ICP Pgf C07xPoly C07xHier C07xIC C07xPref C07xMf C07xCed C07xCedIC C07xEd Rhs Rhs2D Rhs2.
+   Every wrapper of the hierarchy is shown to start at the manifold point Phi(theta = 1, R = 0) on the rho path. *)
+From EoNV Require Import Prelude Graph Vec VecP Aux AuxP IC Wrappers ICP Pgf C07xPoly C07xHier C07xIC C07xPref C07xMf C07xCed C07xCedIC C07xEd C07xEdIC Rhs Rhs2D Rhs2.
 
 (* ---------- the formal derivative is the derivative ---------- *)
 Theorem C07x_formal_derivative_is_derivative : forall (F : pmap) x h,
@@ -146,6 +146,14 @@ Theorem C07x_compact_effective_degree_from_graph_on_manifold : forall g rho_opt 
     veq (Skappa0 ++ [R0; SI0]) (Phi_ced c (gN g) tau gam (fg_phiS0 r) fg_phiR0 1 0) /\
     vsum Skappa0 + I0 + R0 == gN g.
 Proof. exact ced_fg_rho. Qed.
+(* SIR_effective_degree_from_graph starts at Phi_ed(theta = 1, R = 0): its table (1-rho) N_{s+i} C(s+i,i) rho^i (1-rho)^s *)
+Theorem C07x_effective_degree_from_graph_on_manifold : forall g rho_opt tau gam,
+  let r := rho_or_default g rho_opt in let c := fg_coeffs g r in
+  wf_ugraph g = true -> ~ D c 1 == 0 ->
+  exists Ssi0 I0 R0, (forall full sv,
+    SIR_effective_degree_from_graph g (mkReq None None rho_opt) full sv = Ok (SIR_effective_degree Ssi0 I0 R0 full sv)) /\
+    veq (flatten Ssi0 ++ [R0]) (Phi_ed c (gN g) tau gam (fg_phiS0 r) fg_phiR0 1 0).
+Proof. exact ed_fg_rho. Qed.
 (* the hierarchy identities with exactly the closures and constants the wrappers pass *)
 Theorem C07x_hierarchy_from_graph : forall g rho_opt t tau gam theta R,
   wf_ugraph g = true ->
@@ -300,6 +308,7 @@ Print Assumptions C07x_outputs_agree.
 Print Assumptions C07x_ebcm_to_compact_effective_degree.
 Print Assumptions C07x_compact_effective_degree_from_graph_on_manifold.
 Print Assumptions C07x_nonvacuous_ced.
+Print Assumptions C07x_effective_degree_from_graph_on_manifold.
 Print Assumptions C07x_ebcm_to_effective_degree.
 Print Assumptions C07x_ebcm_to_effective_degree_generated.
 Print Assumptions C07x_nonvacuous_ed.
